@@ -297,3 +297,325 @@ Corollary pp_reject_stable b x e : pp_parse ipf b = Reject e -> pp_parse ipf (b 
 Proof. intros H. rewrite pp_parse_ext; [exact H|rewrite H; discriminate]. Qed.
 
 End WithIp.
+
+(* ================================================================== *)
+(* decimal ports through Tokenizer::int64(port, 10, false)            *)
+Definition is_dec (c : N) : Prop := 48 <= c <= 57.
+Definition dec_val_from (ds : bytes) (a : N) : N := fold_left (fun a c => a * 10 + (c - 48)) ds a.
+Definition stops10 (r : bytes) : Prop := match r with [] => True | c :: _ => digit_of 10 c = None end.
+Definition cutoff10 : Z := ((two63 - 1) / 10)%Z.
+Definition cutlim10 : Z := ((two63 - 1) mod 10)%Z.
+
+Lemma cut_facts : (cutoff10 * 10 + cutlim10 = two63 - 1 /\ 0 <= cutlim10 < 10 /\ two63 - 1 < two64 /\ 0 < two63)%Z.
+Proof. vm_compute. repeat split; congruence. Qed.
+
+Lemma digit_of_dec c : is_dec c -> digit_of 10 c = Some (Z.of_N c - 48)%Z.
+Proof.
+  unfold is_dec, digit_of, digit_raw, is_digit. intros H.
+  replace ((48 <=? c) && (c <=? 57)) with true by lia.
+  destruct (Z.of_N c - 48 >=? 10)%Z eqn:E; [lia|reflexivity].
+Qed.
+
+Lemma dec_val_from_ge ds : forall a, a <= dec_val_from ds a.
+Proof.
+  induction ds as [|c ds IH]; intros a; cbn [dec_val_from fold_left]; [lia|].
+  specialize (IH (a * 10 + (c - 48))). unfold dec_val_from in IH. lia.
+Qed.
+
+Lemma int64_loop_exact ds : forall r any a n,
+  Forall is_dec ds -> stops10 r -> (0 <= any)%Z -> (Z.of_N (dec_val_from ds a) <= two63 - 1)%Z ->
+  int64_loop 10 cutoff10 cutlim10 (ds ++ r) {| st_any := any; st_acc := Z.of_N a; st_n := n |}
+  = {| st_any := match ds with [] => any | _ => 1%Z end; st_acc := Z.of_N (dec_val_from ds a); st_n := n + lenN ds |}.
+Proof.
+  induction ds as [|c ds IH]; intros r any a n Hd Hs Hany Hle.
+  - cbn [app lenN dec_val_from fold_left]. rewrite N.add_0_r.
+    destruct r as [|y r]; cbn [int64_loop]; [reflexivity|]. cbn [stops10] in Hs. rewrite Hs. reflexivity.
+  - inversion Hd as [|c' ds' Hc Hds]; subst. cbn [app int64_loop]. rewrite (digit_of_dec c Hc).
+    cbn [dec_val_from fold_left] in Hle |- *. fold (dec_val_from ds (a * 10 + (c - 48))) in Hle |- *.
+    pose proof (dec_val_from_ge ds (a * 10 + (c - 48))) as Hge.
+    destruct cut_facts as (F1 & F2 & F3 & F4). unfold is_dec in Hc.
+    cbn [st_any st_acc st_n].
+    destruct ((any <? 0)%Z || (Z.of_N a >? cutoff10)%Z || ((Z.of_N a =? cutoff10)%Z && (Z.of_N c - 48 >? cutlim10)%Z)) eqn:C; [lia|].
+    replace ((Z.of_N a * 10 + (Z.of_N c - 48)) mod two64)%Z with (Z.of_N (a * 10 + (c - 48))).
+    2:{ rewrite Z.mod_small by lia. lia. }
+    rewrite IH; try assumption; try lia.
+    f_equal; [destruct ds; reflexivity| cbn [lenN]; lia].
+Qed.
+
+Lemma int64_loop_neg l : forall st, (st_any st < 0)%Z -> (st_any (int64_loop 10 cutoff10 cutlim10 l st) < 0)%Z.
+Proof.
+  induction l as [|c l IH]; intros st H; cbn [int64_loop]; [exact H|].
+  destruct (digit_of 10 c); [|exact H]. apply IH.
+  replace (st_any st <? 0)%Z with true by lia. cbn [orb st_any]. lia.
+Qed.
+
+(* for any digit string: either the loop reports overflow, or the value is exact *)
+Lemma int64_loop_dich ds : forall r any a n,
+  Forall is_dec ds -> stops10 r -> (0 <= any)%Z -> (Z.of_N a <= two63 - 1)%Z ->
+  (st_any (int64_loop 10 cutoff10 cutlim10 (ds ++ r) {| st_any := any; st_acc := Z.of_N a; st_n := n |}) < 0)%Z \/
+  int64_loop 10 cutoff10 cutlim10 (ds ++ r) {| st_any := any; st_acc := Z.of_N a; st_n := n |}
+  = {| st_any := match ds with [] => any | _ => 1%Z end; st_acc := Z.of_N (dec_val_from ds a); st_n := n + lenN ds |}.
+Proof.
+  induction ds as [|c ds IH]; intros r any a n Hd Hs Hany Hle.
+  - right. apply int64_loop_exact; assumption.
+  - inversion Hd as [|c' ds' Hc Hds]; subst. cbn [app int64_loop]. rewrite (digit_of_dec c Hc).
+    destruct cut_facts as (F1 & F2 & F3 & F4). unfold is_dec in Hc. cbn [st_any st_acc st_n].
+    destruct ((any <? 0)%Z || (Z.of_N a >? cutoff10)%Z || ((Z.of_N a =? cutoff10)%Z && (Z.of_N c - 48 >? cutlim10)%Z)) eqn:C.
+    + left. apply int64_loop_neg. cbn [st_any]. lia.
+    + replace ((Z.of_N a * 10 + (Z.of_N c - 48)) mod two64)%Z with (Z.of_N (a * 10 + (c - 48))).
+      2:{ rewrite Z.mod_small by lia. lia. }
+      assert (H1 : (0 <= 1)%Z) by lia.
+      assert (H2 : (Z.of_N (a * 10 + (c - 48)) <= two63 - 1)%Z) by lia.
+      destruct (IH r 1%Z (a * 10 + (c - 48)) (N.succ n) Hds Hs H1 H2) as [L|R]; [left; exact L|right].
+      rewrite R. cbn [dec_val_from fold_left lenN]. f_equal; [destruct ds; reflexivity|lia].
+Qed.
+
+Lemma int64_front_base10 core limit buf :
+  int64_front core 10 false limit buf =
+  match buf with [] => None | _ => if limit =? 0 then None else core 10%Z false (takeN limit buf) 0 end.
+Proof.
+  unfold int64_front. destruct buf as [|b0 buf]; [reflexivity|]. destruct (limit =? 0); [reflexivity|].
+  set (range := takeN limit (b0 :: buf)). cbn [orb Z.eqb].
+  destruct range as [|c [|x r]]; try reflexivity.
+  destruct c as [|p]; [reflexivity|]. do 6 (destruct p as [p|p|]; try reflexivity).
+Qed.
+
+Lemma int64_core_exact ds r n :
+  ds <> [] -> Forall is_dec ds -> stops10 r -> (Z.of_N (dec_value ds) <= two63 - 1)%Z ->
+  int64_core 10 false (ds ++ r) n = Some (Z.of_N (dec_value ds), n + lenN ds).
+Proof.
+  intros Hne Hd Hs Hle. unfold int64_core.
+  destruct ds as [|c ds]; [congruence|]. cbn [app].
+  change (((two63 - 1) / 10)%Z) with cutoff10. change (((two63 - 1) mod 10)%Z) with cutlim10.
+  change (c :: ds ++ r) with ((c :: ds) ++ r).
+  assert (H0 : (0 <= 0)%Z) by lia.
+  pose proof (int64_loop_exact (c :: ds) r 0%Z 0 n Hd Hs H0 Hle) as E. change (Z.of_N 0) with 0%Z in E.
+  rewrite E. cbn [st_any st_acc st_n]. reflexivity.
+Qed.
+
+(* any digit string: int64 either fails or returns exactly its value *)
+Lemma int64_core_dich ds r n :
+  ds <> [] -> Forall is_dec ds -> stops10 r ->
+  int64_core 10 false (ds ++ r) n = None \/
+  int64_core 10 false (ds ++ r) n = Some (Z.of_N (dec_value ds), n + lenN ds).
+Proof.
+  intros Hne Hd Hs. unfold int64_core.
+  destruct ds as [|c ds]; [congruence|]. cbn [app].
+  change (((two63 - 1) / 10)%Z) with cutoff10. change (((two63 - 1) mod 10)%Z) with cutlim10.
+  change (c :: ds ++ r) with ((c :: ds) ++ r).
+  assert (H0 : (0 <= 0)%Z) by lia.
+  assert (H1 : (Z.of_N 0 <= two63 - 1)%Z) by (destruct cut_facts as (_ & _ & _ & F); cbn; lia).
+  destruct (int64_loop_dich (c :: ds) r 0%Z 0 n Hd Hs H0 H1) as [L|R]; change (Z.of_N 0) with 0%Z in *.
+  - left. destruct (st_any _ =? 0)%Z; [reflexivity|]. replace (st_any _ <? 0)%Z with true by lia. reflexivity.
+  - right. rewrite R. cbn [st_any st_acc st_n]. reflexivity.
+Qed.
+
+Lemma int64_core_nondigit c r n : digit_of 10 c = None -> int64_core 10 false (c :: r) n = None.
+Proof. intros H. unfold int64_core. cbn [int64_loop]. rewrite H. reflexivity. Qed.
+
+Lemma stops10_sp r : stops10 (32 :: r).
+Proof. reflexivity. Qed.
+
+Lemma tok_int64_dec ds r :
+  ds <> [] -> Forall is_dec ds -> stops10 r -> (Z.of_N (dec_value ds) <= two63 - 1)%Z -> lenN (ds ++ r) <= npos ->
+  tok_int64 10 false npos (ds ++ r) = Some (Z.of_N (dec_value ds), lenN ds).
+Proof.
+  intros Hne Hd Hs Hle Hlen. unfold tok_int64. rewrite int64_front_base10.
+  destruct ds as [|c ds]; [congruence|]. cbn [app]. change (c :: ds ++ r) with ((c :: ds) ++ r).
+  change (npos =? 0) with false. cbv iota. rewrite takeN_all by exact Hlen.
+  rewrite int64_core_exact; try assumption. rewrite N.add_0_l. reflexivity.
+Qed.
+
+Lemma extract_port_sp ds r :
+  ds <> [] -> Forall is_dec ds -> dec_value ds <= 65535 -> lenN (ds ++ 32 :: r) <= npos ->
+  v1_extract_port true (ds ++ 32 :: r) = inr (dec_value ds, r).
+Proof.
+  intros Hne Hd Hv Hlen. unfold v1_extract_port.
+  rewrite tok_int64_dec; try assumption; [|apply stops10_sp|unfold two63; lia].
+  rewrite dropN_app_exact. cbn [tok_skipChar N.eqb Pos.eqb].
+  destruct (Z.of_N (dec_value ds) >? 65535)%Z eqn:E; [lia|].
+  rewrite Z.mod_small by lia. rewrite N2Z.id. reflexivity.
+Qed.
+
+Lemma extract_port_last ds r :
+  ds <> [] -> Forall is_dec ds -> dec_value ds <= 65535 -> stops10 r -> lenN (ds ++ r) <= npos ->
+  v1_extract_port false (ds ++ r) = inr (dec_value ds, r).
+Proof.
+  intros Hne Hd Hv Hs Hlen. unfold v1_extract_port.
+  rewrite tok_int64_dec; try assumption; [|unfold two63; lia].
+  rewrite dropN_app_exact.
+  destruct (Z.of_N (dec_value ds) >? 65535)%Z eqn:E; [lia|].
+  rewrite Z.mod_small by lia. rewrite N2Z.id. reflexivity.
+Qed.
+
+(* a port field whose digits denote more than 65535 (any number of digits) is rejected *)
+Lemma extract_port_big ts ds r :
+  ds <> [] -> Forall is_dec ds -> 65535 < dec_value ds -> stops10 r -> lenN (ds ++ r) <= npos ->
+  exists e, v1_extract_port ts (ds ++ r) = inl e.
+Proof.
+  intros Hne Hd Hv Hs Hlen. unfold v1_extract_port, tok_int64. rewrite int64_front_base10.
+  destruct ds as [|c ds]; [congruence|]. cbn [app]. change (c :: ds ++ r) with ((c :: ds) ++ r).
+  change (npos =? 0) with false. cbv iota. rewrite takeN_all by exact Hlen.
+  destruct (int64_core_dich (c :: ds) r 0 Hne Hd Hs) as [E|E]; rewrite E; [eexists; reflexivity|].
+  destruct (if ts then tok_skipChar 32 (dropN (0 + lenN (c :: ds)) ((c :: ds) ++ r)) else (true, dropN (0 + lenN (c :: ds)) ((c :: ds) ++ r))) as [[|] r2];
+    [|eexists; reflexivity].
+  replace (Z.of_N (dec_value (c :: ds)) >? 65535)%Z with true by lia. eexists; reflexivity.
+Qed.
+
+Lemma extract_port_nondigit ts c r :
+  digit_of 10 c = None -> v1_extract_port ts (c :: r) = inl E1_port_malformed.
+Proof.
+  intros H. unfold v1_extract_port, tok_int64. rewrite int64_front_base10.
+  change (npos =? 0) with false. cbv iota.
+  cbn [takeN]. change (npos =? 0) with false. cbv iota.
+  rewrite int64_core_nondigit by exact H. reflexivity.
+Qed.
+
+(* ================================================================== *)
+(* the character classes, from the regenerated tables                  *)
+Lemma tbl_get_out {A} (d : A) t c : lenN t <= c -> tbl_get d t c = d.
+Proof.
+  revert c; induction t as [|x t IH]; intros c H; cbn [tbl_get]; [reflexivity|].
+  cbn [lenN] in H. destruct (c =? 0) eqn:E; [lia|]. apply IH. lia.
+Qed.
+
+Lemma nonCR_spec c : nonCR c = negb (c =? 13).
+Proof.
+  destruct (N.ltb_spec c 256) as [H|H].
+  - apply (forallb_bytes (fun c => Bool.eqb (nonCR c) (negb (c =? 13)))) in H; [apply eqb_prop; exact H|].
+    vm_compute. reflexivity.
+  - unfold nonCR, pp_CR, mem_tbl. rewrite tbl_get_out by (vm_compute lenN; exact H).
+    destruct (c =? 13) eqn:E; [lia|reflexivity].
+Qed.
+
+Lemma ipChars_not_sp_cr c : ipChars c = true -> c <> 32 /\ c <> 13.
+Proof. intros H. split; intros ->; vm_compute in H; discriminate. Qed.
+
+Lemma forallb_impl {A} (p q : A -> bool) l : (forall x, p x = true -> q x = true) -> forallb p l = true -> forallb q l = true.
+Proof.
+  intros Hpq. induction l as [|x l IH]; cbn [forallb]; [trivial|]. intros H.
+  apply andb_true_iff in H as [H1 H2]. rewrite (Hpq _ H1), (IH H2). reflexivity.
+Qed.
+
+Lemma forallb_Forall_dec ds : Forall is_dec ds -> forallb nonCR ds = true.
+Proof.
+  induction 1 as [|c ds Hc _ IH]; cbn [forallb]; [reflexivity|]. rewrite IH, nonCR_spec.
+  unfold is_dec in Hc. destruct (c =? 13) eqn:E; [lia|reflexivity].
+Qed.
+
+Lemma forallb_ip_nonCR t : forallb ipChars t = true -> forallb nonCR t = true.
+Proof.
+  apply forallb_impl. intros c H. apply ipChars_not_sp_cr in H as [_ H]. rewrite nonCR_spec.
+  destruct (c =? 13) eqn:E; [lia|reflexivity].
+Qed.
+
+Lemma stops_ip_sp r : stops ipChars (32 :: r).
+Proof. reflexivity. Qed.
+
+(* ================================================================== *)
+(* v1: the pieces                                                      *)
+Lemma pp_parse_v1 ipf y : pp_parse ipf (pp_magic1 ++ y) = add_size (lenN pp_magic1) (v1_parse ipf y).
+Proof.
+  unfold pp_parse, tok_skip.
+  rewrite (starts_with_hd_conflict _ _ _ magic_hd_differ (starts_with_self_app pp_magic1 y)).
+  rewrite starts_with_self_app, magic1_nonempty, dropN_app_exact. reflexivity.
+Qed.
+
+Lemma pp_parse_v2 ipf y : pp_parse ipf (pp_magic2 ++ y) = add_size (lenN pp_magic2) (v2_parse y).
+Proof.
+  unfold pp_parse, tok_skip. rewrite starts_with_self_app, magic2_nonempty, dropN_app_exact. reflexivity.
+Qed.
+
+Lemma v1_isolate_ok interior rest :
+  interior <> [] -> forallb nonCR interior = true -> lenN interior <= v1_maxInteriorLength ->
+  v1_isolate (interior ++ 13 :: 10 :: rest) = IsoOk interior (lenN interior + 1 + 1).
+Proof.
+  intros Hne Hall Hle. unfold v1_isolate.
+  rewrite prefix_spec_intro; try assumption; [|right; reflexivity].
+  reflexivity.
+Qed.
+
+Lemma extract_ip_ok ipf t a r :
+  t <> [] -> forallb ipChars t = true -> ipf t = Some a -> lenN t <= npos ->
+  v1_extract_ip ipf (t ++ 32 :: r) = inr (a, r).
+Proof.
+  intros Hne Hall Hip Hlen. unfold v1_extract_ip.
+  rewrite prefix_spec_intro; try assumption; [|right; apply stops_ip_sp].
+  cbn [tok_skipChar N.eqb Pos.eqb]. rewrite Hip. reflexivity.
+Qed.
+
+Lemma tok_skip_self p y : tok_skip p (p ++ y) = (negb (lenN p =? 0), y).
+Proof. unfold tok_skip. rewrite starts_with_self_app, dropN_app_exact. reflexivity. Qed.
+
+Lemma list_eqb_refl a : list_eqb a a = true.
+Proof. induction a as [|x a IH]; cbn [list_eqb]; [reflexivity|]. rewrite N.eqb_refl, IH. reflexivity. Qed.
+
+Lemma forallb_app' {A} (p : A -> bool) a b : forallb p a = true -> forallb p b = true -> forallb p (a ++ b) = true.
+Proof. intros H1 H2. rewrite forallb_app, H1, H2. reflexivity. Qed.
+
+Definition v1_interior_tcp (fam : N) (st dt sps dps : bytes) : bytes :=
+  32 :: s_TCP ++ fam :: 32 :: st ++ 32 :: dt ++ 32 :: sps ++ 32 :: dps.
+
+Lemma enc_v1_tcp_shape fam st dt sps dps rest :
+  enc_v1_tcp fam st dt sps dps ++ rest = pp_magic1 ++ (v1_interior_tcp fam st dt sps dps ++ 13 :: 10 :: rest).
+Proof. unfold enc_v1_tcp, v1_interior_tcp. repeat (rewrite <- app_assoc; cbn [app]). reflexivity. Qed.
+
+Lemma enc_v1_tcp_len fam st dt sps dps :
+  lenN (enc_v1_tcp fam st dt sps dps) = 16 + lenN st + lenN dt + lenN sps + lenN dps /\
+  lenN (v1_interior_tcp fam st dt sps dps) = 9 + lenN st + lenN dt + lenN sps + lenN dps.
+Proof.
+  unfold enc_v1_tcp, v1_interior_tcp. repeat (rewrite lenN_app || cbn [lenN]).
+  change (lenN pp_magic1) with 5. change (lenN s_TCP) with 3. lia.
+Qed.
+
+Theorem v1_tcp_roundtrip ipf fam st dt sa da sps dps rest :
+  st <> [] -> dt <> [] -> forallb ipChars st = true -> forallb ipChars dt = true ->
+  ipf st = Some sa -> ipf dt = Some da ->
+  ((fam = 52 /\ is_ipv4 sa = true /\ is_ipv4 da = true) \/ (fam = 54 /\ is_ipv4 sa = false /\ is_ipv4 da = false)) ->
+  sps <> [] -> Forall is_dec sps -> dec_value sps <= 65535 ->
+  dps <> [] -> Forall is_dec dps -> dec_value dps <= 65535 ->
+  lenN (enc_v1_tcp fam st dt sps dps) <= v1_maxHeaderLength ->
+  pp_parse ipf (enc_v1_tcp fam st dt sps dps ++ rest) =
+  Ok {| h_v2 := false; h_cmd := pp_cmdProxy; h_ignore := false;
+        h_src := sa; h_sport := dec_value sps; h_dst := da; h_dport := dec_value dps; h_tlvs := [] |}
+     (lenN (enc_v1_tcp fam st dt sps dps)).
+Proof.
+  intros Hst Hdt Hsc Hdc Hsa Hda Hfam Hsp1 Hsp2 Hsp3 Hdp1 Hdp2 Hdp3 Hlen.
+  destruct (enc_v1_tcp_len fam st dt sps dps) as [L1 L2].
+  change v1_maxHeaderLength with 107 in Hlen.
+  rewrite enc_v1_tcp_shape, pp_parse_v1. unfold v1_parse.
+  assert (Hfc : famChars fam = true) by (destruct Hfam as [(-> & _)|(-> & _)]; reflexivity).
+  assert (Hfn : nonCR fam = true) by (destruct Hfam as [(-> & _)|(-> & _)]; vm_compute; reflexivity).
+  rewrite v1_isolate_ok.
+  2:{ unfold v1_interior_tcp. discriminate. }
+  2:{ unfold v1_interior_tcp. cbn [forallb].
+      replace (nonCR 32) with true by (vm_compute; reflexivity). cbn [andb].
+      apply forallb_app'; [vm_compute; reflexivity|]. cbn [forallb]. rewrite Hfn.
+      replace (nonCR 32) with true by (vm_compute; reflexivity). cbn [andb].
+      apply forallb_app'; [apply forallb_ip_nonCR; exact Hsc|]. cbn [forallb].
+      replace (nonCR 32) with true by (vm_compute; reflexivity). cbn [andb].
+      apply forallb_app'; [apply forallb_ip_nonCR; exact Hdc|]. cbn [forallb].
+      replace (nonCR 32) with true by (vm_compute; reflexivity). cbn [andb].
+      apply forallb_app'; [apply forallb_Forall_dec; exact Hsp2|]. cbn [forallb].
+      replace (nonCR 32) with true by (vm_compute; reflexivity). cbn [andb].
+      apply forallb_Forall_dec; exact Hdp2. }
+  2:{ change v1_maxInteriorLength with 100. lia. }
+  unfold v1_interior, v1_interior_tcp. cbn [tok_skipChar N.eqb Pos.eqb].
+  rewrite tok_skip_self. change (negb (lenN s_TCP =? 0)) with true. cbv iota.
+  unfold v1_addresses.
+  change (fam :: 32 :: st ++ 32 :: dt ++ 32 :: sps ++ 32 :: dps) with ([fam] ++ 32 :: st ++ 32 :: dt ++ 32 :: sps ++ 32 :: dps).
+  rewrite prefix_spec_intro; [|discriminate|cbn [forallb]; rewrite Hfc; reflexivity|cbn [lenN]; lia|left; reflexivity].
+  cbn [tok_skipChar N.eqb Pos.eqb].
+  unfold npos in *.
+  rewrite (extract_ip_ok ipf st sa _ Hst Hsc Hsa) by (unfold npos; lia).
+  rewrite (extract_ip_ok ipf dt da _ Hdt Hdc Hda) by (unfold npos; lia).
+  assert (Haf : address_family sa da = [fam]).
+  { unfold address_family. destruct Hfam as [(-> & -> & ->)|(-> & -> & ->)]; reflexivity. }
+  rewrite Haf, list_eqb_refl. cbn [negb].
+  rewrite extract_port_sp; try assumption; [|rewrite lenN_app; cbn [lenN]; unfold npos; lia].
+  rewrite <- (app_nil_r dps) at 1.
+  rewrite extract_port_last; try assumption; [|exact I|rewrite app_nil_r; unfold npos; lia].
+  cbn [add_size]. unfold header_set_addrs, header_new. cbn [h_v2 h_cmd h_ignore h_tlvs].
+  f_equal. rewrite L1. repeat (rewrite lenN_app || cbn [lenN]).
+  change (lenN pp_magic1) with 5. change (lenN s_TCP) with 3. lia.
+Qed.
